@@ -504,6 +504,8 @@ class SphericalDroplet(DropletBase):
         """
         data = self._get_phase_field(grid)
         data = vmin + (vmax - vmin) * data  # scale data
+        # round-off errors in the scaling must not push values out of the requested range
+        np.clip(data, min(vmin, vmax), max(vmin, vmax), out=data)
         return ScalarField(grid, data=data, label=label)
 
     def get_triangulation(self, resolution: float = 1) -> dict[str, Any]:
